@@ -2,6 +2,8 @@ package batchrun
 
 import (
 	"fmt"
+	"os"
+	"path/filepath"
 	"strings"
 
 	"pgregory.net/rapid"
@@ -52,6 +54,13 @@ func drawC01(t *rapid.T, x *X) *Case {
 	c.Input = gspec.SampleInput(t, g, entryRuleName(g, c.Entry), alphabetFor(g), 48)
 	if gspec.U(t, 4, "fname") == 0 {
 		c.Opts.Filename = "f.txt"
+	}
+	switch gspec.U(t, 10, "entrypoint") {
+	case 0:
+		c.Opts.Via = "reader"
+	case 1:
+		c.Opts.Via = "file"
+		c.Opts.Filename = filepath.Join(os.TempDir(), fmt.Sprintf("vrt-parsefile-%d.txt", os.Getpid()))
 	}
 	return c
 }
